@@ -419,6 +419,7 @@ package interpreter
 //@   callpre interpreter.ProcessQueryParams qsrc(arg0) == queryOf(request.Path)
 //@ func ProcessQueryParams
 //@   modifies nothing
+//@   ensures err == nil ==> result != nil && fresh(result)
 //@   loop 2 invariant 0 <= rangeidx && forall(k, 0, rangeidx, declarations[k].Required && declarations[k].Default == nil ==> has(rawParams, declarations[k].Name) && len(rawParams[declarations[k].Name]) > 0)
 //@   ensures err == nil ==> forall(k, 0, len(declarations), declarations[k].Required && declarations[k].Default == nil ==> has(rawParams, declarations[k].Name) && len(rawParams[declarations[k].Name]) > 0)
 // a declared return type: the response is built from the route's value only after CheckType accepted it
